@@ -785,6 +785,14 @@ def run(ctx):
     if os.path.exists(os.path.join(core.VERIF, "props", "C02_ext.py")) and os.path.exists(os.path.join(core.VERIF, "props", "C02_ext.enabled")):
         importlib.import_module("props.C02_ext").run_part(ctx)
 
+    # the character half (string-length / substring / translate over code points, K6 and its repair; props/C02_codepoints.py)
+    try:
+        cp_part = importlib.import_module("props.C02_codepoints")
+    except ImportError:
+        cp_part = None
+    if cp_part is not None:
+        cp_part.run_part(ctx)
+
     known = {k["key"]: k for k in ctx.known.for_property("C02")}
     hits = {}
     run_corpus(ctx, impl, known, hits)
